@@ -149,12 +149,18 @@ func verdictOf(f ErrFacts) Verdict {
 func (w *World) provideOpts(f *Func, info *dig.ProvideInfo) []dig.ProvideOption {
 	var o []dig.ProvideOption
 	if f.OptName != "" {
+		if f.OptNoise {
+			o = append(o, dig.Name("overridden"))
+		}
 		o = append(o, dig.Name(f.OptName))
 	}
 	if f.OptGroup != "" {
 		g := f.OptGroup
 		if f.OptFlatten {
 			g += ",flatten"
+		}
+		if f.OptNoise {
+			o = append(o, dig.Group("overridden"))
 		}
 		o = append(o, dig.Group(g))
 	}
@@ -165,7 +171,9 @@ func (w *World) provideOpts(f *Func, info *dig.ProvideInfo) []dig.ProvideOption 
 		}
 		o = append(o, dig.As(as...))
 	}
-	if f.Export {
+	if f.OptNoise {
+		o = append(o, dig.Export(!f.Export), dig.Export(f.Export))
+	} else if f.Export {
 		o = append(o, dig.Export(true))
 	}
 	if f.Callback {
